@@ -170,6 +170,59 @@ def tls_history_probe(run, binary, dense):
                              "summary": "C16 thread-local state leaked by an earlier failing evaluation changes a later "
                                         f"result: {probes[pi][:80]} after {' ; '.join(x[:40] for x in pre)[:160]}",
                              "expected": fresh[pi], "got": got})
+    failures += shared_state_probe(run, binary)
+    return failures
+
+
+SHARED_FILES = {
+    "bad.libsonnet": "{ assert self.x > 0 : 'x must be positive', x: 0, y: 1, inner: { z: 2 } }",
+    "viabad.libsonnet": "local a = import 'bad.libsonnet'; { v: a.y, w: 3 }",
+    "good.libsonnet": "{ assert self.x > 0, x: 1, y: 2 }",
+    "late.libsonnet": "{ local me = self, assert me.k < 10 : 'k too big', k: 10, j: 1 }",
+    "deepassert.libsonnet": "{ local f(n) = 1 + f(n + 1), assert f(0) > 0, q: 7 }",
+    "boomfield.libsonnet": "{ a: error 'boom', b: 2 }",
+}
+SHARED_HISTORIES = [
+    ["(import 'bad.libsonnet').y"] * 3,
+    ["(import 'bad.libsonnet').y", "(import 'viabad.libsonnet').v", "(import 'viabad.libsonnet').w",
+     "(import 'bad.libsonnet').inner.z"],
+    ["std.manifestJson(import 'bad.libsonnet')", "(import 'bad.libsonnet').y", "(import 'good.libsonnet').y",
+     "import 'bad.libsonnet'"],
+    ["(import 'good.libsonnet').y", "(import 'bad.libsonnet') + {x: 5}", "(import 'bad.libsonnet').y",
+     "(import 'bad.libsonnet') + {x: 5}"],
+    ["(import 'late.libsonnet').j"] * 2 + ["(import 'late.libsonnet') + {k: 1}", "(import 'late.libsonnet').k"],
+    ["(import 'deepassert.libsonnet').q"] * 2 + ["local f(n) = if n == 0 then 0 else 1 + f(n - 1); f(150)"],
+    ["(import 'boomfield.libsonnet').a", "(import 'boomfield.libsonnet').b", "(import 'boomfield.libsonnet').a"],
+    ["std.objectFields(import 'bad.libsonnet')", "std.length(import 'bad.libsonnet')", "(import 'bad.libsonnet').y",
+     "'y' in (import 'bad.libsonnet')", "(import 'bad.libsonnet').y"],
+]
+
+
+def shared_state_probe(run, binary):
+    """histories on ONE State (import cache and the objects it holds survive): a snippet must answer as it does
+    in a fresh State, however many evaluations of the same cached objects failed before it"""
+    short = lambda a: ("ok", a.get("ok")) if "ok" in a else (("err", a.get("err")) if "err" in a else ("other", a))
+    singles = sorted({c for h in SHARED_HISTORIES for c in h})
+    fresh = core.run_harness(binary, "eval", [{"code": c, "out": "default", "files": SHARED_FILES} for c in singles])
+    fresh = {c: short(a) for c, a in zip(singles, fresh)}
+    reqs = [{"codes": h, "out": "default", "files": SHARED_FILES} for h in SHARED_HISTORIES]
+    outs = core.run_harness(binary, "eval", reqs)
+    failures = []
+    for h, rq, o in zip(SHARED_HISTORIES, reqs, outs):
+        run.note_case("shared:" + "|".join(h), True)
+        run.count("shared-state-history")
+        multi = o.get("multi")
+        if not isinstance(multi, list) or len(multi) != len(h):
+            failures.append({"case": {"request": rq}, "summary": "C16 shared-state history did not complete: "
+                             + str(o)[:200], "expected": [fresh[c] for c in h], "got": o})
+            continue
+        for i, (c, a) in enumerate(zip(h, multi)):
+            if short(a) != fresh[c]:
+                failures.append({"case": {"request": rq},
+                                 "summary": f"C16 step {i} of a history on one State answers differently than in a fresh "
+                                            f"State: {c[:80]} after {' ; '.join(x[:40] for x in h[:i])[:160]}",
+                                 "expected": list(fresh[c]), "got": list(short(a))})
+                break
     return failures
 
 
